@@ -73,6 +73,51 @@ FSM['CLASSIC'] = {
 # ChaCha20Cipher follows the same table; its seek() is allowed in every state and does not change the state (unguarded).
 
 
+# author hashes: hash / XOF / MAC wrappers of Crypto.Hash (Doc/src/hash/*.rst and the method documentation).
+# XOFs (SHAKE128/256, cSHAKE128/256, TurboSHAKE128/256, KangarooTwelve): "You cannot use update() anymore after the first
+# call to read()"; read() continues the output stream; copy() (SHAKE only) is always allowed and the clone is in the same state.
+FSM['XOF'] = {
+    'methods': ('update', 'read'),
+    'init': ('update', 'read'),
+    'next': {'update': None, 'read': ('read',)},
+}
+FSM['XOF.copy'] = {
+    'methods': ('update', 'read', 'copy'),
+    'init': ('update', 'read', 'copy'),
+    'next': {'update': None, 'read': ('read', 'copy'), 'copy': None},
+}
+# fixed-output hashes with the update_after_digest option (SHA3_224/256/384/512, keccak, BLAKE2b/s): "digest() can[not] be
+# followed by another update()" unless update_after_digest=True; digest() is repeatable; copy() (SHA-3 only) always allowed.
+# MACs whose tag is final (KMAC128/256, TupleHash128/256, Poly1305): same table without the option; verify() = digest() + compare.
+FSM['HASH.digest_final'] = {
+    'methods': ('update', 'digest'),
+    'init': ('update', 'digest'),
+    'next': {'update': None, 'digest': ('digest',)},
+}
+FSM['HASH.digest_final.copy'] = {
+    'methods': ('update', 'digest', 'copy'),
+    'init': ('update', 'digest', 'copy'),
+    'next': {'update': None, 'digest': ('digest', 'copy'), 'copy': None},
+}
+FSM['MAC.digest_final'] = {
+    'methods': ('update', 'digest', 'verify'),
+    'init': ('update', 'digest', 'verify'),
+    'next': {'update': None, 'digest': ('digest', 'verify'), 'verify': ('digest', 'verify')},
+}
+# no restriction at all (hashlib semantics): Merkle-Damgard wrappers (SHA-1/2, MD2/4/5, RIPEMD-160), HMAC, and every
+# update_after_digest=True object
+FSM['HASH.free'] = {
+    'methods': ('update', 'digest', 'copy'),
+    'init': ('update', 'digest', 'copy'),
+    'next': {'update': None, 'digest': None, 'copy': None},
+}
+FSM['MAC.free'] = {
+    'methods': ('update', 'digest', 'verify', 'copy'),
+    'init': ('update', 'digest', 'verify', 'copy'),
+    'next': {'update': None, 'digest': None, 'verify': None, 'copy': None},
+}
+
+
 # ---------------------------------------------------------------------------------------------------------------
 def _norm(state):
     return tuple(sorted(set(state)))
